@@ -26,17 +26,21 @@ package service
 // evaluate.go — property C02: the total is the sum, over all records and all their entries, of edur(entry);
 // the should-total sum is the sum of the records' should-totals; the diff is total minus should-total.
 
-//@ spec recTotal(r klog.Record) int = sum(j, 0, len(r.(*klog.record).entries), klog.edur(r.(*klog.record).entries[j]))
+// entSum(r, n): the sum of edur over the first n entries of record r; recTotal(r) is the sum over all of them.
+//@ spec entSum(r klog.Record, n int) int = sum(j, 0, n, klog.edur(r.(*klog.record).entries[j]))
+//@ spec recTotal(r klog.Record) int = entSum(r, len(r.(*klog.record).entries))
 //@ spec recShould(r klog.Record) int = ite(isnil(r.(*klog.record).shouldTotal), 0, klog.dmin(r.(*klog.record).shouldTotal))
 
-// Overflow of the running sum is excluded by the precondition (every prefix sum is small): totals beyond
-// 2^62 minutes are the known limitation F3b.
+// Overflow of the running sum is excluded by the precondition (every entry and every prefix sum stays below 2^61):
+// totals beyond that are the known limitation F3b.
 //@ func Total
 //@ requires forall(i, 0, len(rs), typeis(rs[i], *klog.record))
-//@ requires forall(i, 0, len(rs), forall(j, 0, len(rs[i].(*klog.record).entries)+1, klog.small(sum(a, 0, i, recTotal(rs[a])) + sum(b, 0, j, klog.edur(rs[i].(*klog.record).entries[b])))))
+//@ requires forall(i, 0, len(rs), forall(j, 0, len(rs[i].(*klog.record).entries), klog.tiny(klog.edur(rs[i].(*klog.record).entries[j]))))
+//@ requires forall(i, 0, len(rs), forall(j, 0, len(rs[i].(*klog.record).entries)+1, klog.tiny(sum(a, 0, i, recTotal(rs[a])) + entSum(rs[i], j))))
+//@ requires forall(i, 0, len(rs)+1, klog.tiny(sum(a, 0, i, recTotal(rs[a]))))
 //@ ensures typeis(result, *klog.duration) && result.(*klog.duration).minutes == old(sum(i, 0, len(rs), recTotal(rs[i])))
 //@ loop 1 invariant typeis(total, *klog.duration) && total.(*klog.duration).minutes == old(sum(i, 0, rangeindex+1, recTotal(rs[i])))
-//@ loop 2 invariant typeis(total, *klog.duration) && total.(*klog.duration).minutes == old(sum(i, 0, loopindex(1)+1, recTotal(rs[i]))) + old(sum(j, 0, rangeindex+1, klog.edur(rs[loopindex(1)+1].(*klog.record).entries[j])))
+//@ loop 2 invariant typeis(total, *klog.duration) && total.(*klog.duration).minutes == old(sum(i, 0, loopindex(1)+1, recTotal(rs[i]))) + old(entSum(rs[loopindex(1)+1], rangeindex+1))
 
 //@ func ShouldTotalSum
 //@ requires forall(i, 0, len(rs), typeis(rs[i], *klog.record))
@@ -45,5 +49,5 @@ package service
 //@ loop 1 invariant typeis(total, *klog.duration) && total.(*klog.duration).minutes == old(sum(i, 0, rangeindex+1, recShould(rs[i])))
 
 //@ func Diff
-//@ requires nonnil(should) && nonnil(actual) && klog.small(klog.dmin(should)) && klog.small(klog.dmin(actual))
+//@ requires nonnil(should) && nonnil(actual) && klog.tiny(klog.dmin(should)) && klog.tiny(klog.dmin(actual))
 //@ ensures nonnil(result) && klog.dmin(result) == klog.dmin(actual) - klog.dmin(should)
